@@ -108,3 +108,18 @@ package gem
 // ---- pessimistic operator (C05): never below the base (the pinned-prefix part is covered by the bounded layer)
 //@ func satisfiesPessimistic
 //@   ensures below-base: version.Compare(constraint) < 0 ==> !result   [C05]
+
+// ---- segments (C13): a part that reads as a number is a number segment, anything else a (lower-cased) string segment;
+// trailing zero segments are dropped but the first segment is kept
+//@ func createSegment
+//@   ensures number: strconv.Atoi(part).1 == nil ==> result.isNumeric && result.numValue == strconv.Atoi(part).0 && result.value == part   [C13]
+//@   ensures letters: strconv.Atoi(part).1 != nil ==> !result.isNumeric && result.value == strings.ToLower(part)   [C13]
+//@ func removeTrailingZeros
+//@   loop 1 invariant len(segments) <= len(old(segments)) && (len(old(segments)) >= 1 ==> len(segments) >= 1) && (forall i int :: 0 <= i && i < len(segments) ==> segments[i] == old(segments)[i]) && (forall i int :: len(segments) <= i && i < len(old(segments)) ==> old(segments)[i].isNumeric && old(segments)[i].numValue == 0)
+//@   ensures prefix: len(result) <= len(segments) && (forall i int :: 0 <= i && i < len(result) ==> result[i] == segments[i])   [C13]
+//@   ensures keeps-first: len(segments) >= 1 ==> len(result) >= 1   [C13]
+//@   ensures stops-at-nonzero: len(result) > 1 ==> !(result[len(result)-1].isNumeric && result[len(result)-1].numValue == 0)   [C13]
+//@   ensures drops-only-zeros: forall i int :: len(result) <= i && i < len(segments) ==> segments[i].isNumeric && segments[i].numValue == 0   [C13]
+//@ func containsLetter
+//@   ensures found: result ==> (exists i int :: 0 <= i && i < len(s) && ((s[i] >= 'a' && s[i] <= 'z') || (s[i] >= 'A' && s[i] <= 'Z')))   [C13]
+//@   ensures none: !result ==> (forall i int :: 0 <= i && i < len(s) ==> !((s[i] >= 'a' && s[i] <= 'z') || (s[i] >= 'A' && s[i] <= 'Z')))   [C13]
